@@ -1,4 +1,5 @@
 import RsMatterVerif.Lemmas.BtpFair
+import RsMatterVerif.Lemmas.BtpTimed
 import RsMatterVerif.Lemmas.BtpRing
 /-!
 # C18 — BTP delivers each message intact, once and in order, or fails cleanly
@@ -244,6 +245,93 @@ theorem link_delivered_is_reassembly (ra rb : Bool) (ga gb : Option Nat) (ops : 
     (hk : ((runLink (freshLink ra rb ga gb) ops).get x).fetched[k]? = some (b, c)) :
     ∃ full, ((runLink (freshLink ra rb ga gb) ops).get x).rs.done[k]? = some full ∧ b = full.take c :=
   ((link_inv ops _ (linv_fresh ra rb ga gb) hw).get x).1.dlv k b c hk
+
+/-! ## The acknowledgement deadline, over whole runs -/
+
+theorem ackRun_link (y : Side) (ops : List Op) : ∀ m : AckMon, (ackRun y m ops).l = runLink m.l ops := by
+  induction ops with
+  | nil => intro m; rfl
+  | cons op ops ih =>
+    intro m
+    simp only [ackRun, runLink]
+    rw [ih]
+    unfold AckMon.step
+    cases m.l.step op with
+    | ok r => rfl
+    | error e => rfl
+
+/-- **`ack_within_deadline`** (run level; every state of the link, every schedule).  Observe end `y`
+along ANY schedule `ops` from ANY state `l0` of the link (time advances by `tick` only), with two
+ghost clocks (`Btp.AckMon`): `polledAt` = when `y`'s pump (`process_outgoing`) last ran, `since` =
+since when an acknowledgement has been *sendable* at `y` without interruption
+(`Session.ackable`: `pending_ack().is_some()` - something accepted and not acknowledged, and no
+complete message waiting to be fetched -, a free slot in the send window, no handshake response
+pending).  Then in the state reached, if an acknowledgement is sendable and `y` has been polled
+during the last `p` seconds, the clock is at most `max (received_at + 15 s, since) + p`: **an
+acknowledgement that can be sent never stays unsent for more than the poll period `p` after its
+15 s timer has fired** (`received_at` = the instant the LAST segment was accepted: every accepted
+segment restarts the timer, as in the code; an acknowledgement emitted earlier - stand-alone or
+piggy-backed on data, `poll_ackable` - makes `ackable` false, so "already acknowledged" is covered).
+If `y` is polled at least every `p` seconds throughout, this holds in every state of the run.
+
+The three cases in which NO acknowledgement is due, all from the code, are exactly the negation of
+`ackable`: (1) a complete message waits to be fetched (`buf_messages_ct > 0`: the acknowledgement
+is withheld as back-pressure until the application takes the message - with an application that
+never fetches, the acknowledgement is never sent and the peer's idle timeout closes the session);
+(2) the send window is exhausted (`level = 0`: the stand-alone acknowledgement needs a sequence
+number of its own; it waits for the peer's acknowledgement - between two rs-matter ends this cannot
+persist: `never_dead`, `C18_live_holds`); (3) the responder has not sent its handshake response
+yet (it goes out first, on the same poll sequence). `since` records when the last of them ended. -/
+theorem ack_within_deadline (l0 : LMon) (y : Side) (ops : List Op) (p : Nat) :
+    let m := ackRun y (AckMon.init l0 y) ops
+    m.l = runLink l0 ops ∧
+    (((runLink l0 ops).get y).e.s.ackable = true → (runLink l0 ops).now ≤ m.polledAt + p →
+      ∃ u, m.since = some u ∧ u ≤ (runLink l0 ops).now ∧
+        ∀ t, ((runLink l0 ops).get y).e.s.recv.receivedAt = some t →
+          (runLink l0 ops).now ≤ max (t + ackTimeoutSecs) u + p) := by
+  intro m
+  have hl : m.l = runLink l0 ops := ackRun_link y ops _
+  refine ⟨hl, ?_⟩
+  rw [← hl]
+  intro ha hp
+  have hi : AckInv y m := ackInv_run ops (ackInv_init l0 y)
+  obtain ⟨u, hu, hle, hall⟩ := hi.ok ha
+  refine ⟨u, hu, hle, fun t ht => ?_⟩
+  rcases hall t ht with h | h
+  · have : t + ackTimeoutSecs ≤ max (t + ackTimeoutSecs) u := Nat.le_max_left _ _
+    omega
+  · have : u ≤ max (t + ackTimeoutSecs) u := Nat.le_max_right _ _
+    omega
+
+/-- the pump step behind it (one step, every end state): polled in an `ackable` state, the end
+either emits a segment that carries the acknowledgement number `ack_seq` (and then counts
+everything as acknowledged), or emits nothing, is unchanged, and `is_ack_due` is false -/
+theorem poll_emits_ack {e : End} (ha : e.s.ackable = true) {now : Nat} {e' : End} {seg : List Nat}
+    (hok : e.processOutgoing now = .ok (e', seg)) :
+    (seg = [] ∧ e' = e ∧ e.s.isAckDue now ackTimeoutSecs = false) ∨
+    (seg ≠ [] ∧ e'.s.recv.ackLevel = 0 ∧
+      ∃ (h : Hdr) (p : List Nat), seg = h.encode ++ p ∧ h.getAck = some e.s.recv.ackSeq) :=
+  poll_ackable ha hok
+
+def ackSampleOps : List Op :=
+  [.poll .a, .deliver .b, .poll .b, .deliver .a, .send .a [1, 2, 3], .poll .a, .deliver .b, .fetch .b 100,
+   .tick 4, .poll .b, .tick 4, .poll .b, .tick 4, .poll .b]
+
+/-- Non-vacuity / a sample run (`ackSampleOps`): after the handshake `a` sends a one-segment message at time 0, `b`
+accepts it and the application fetches it: an acknowledgement is sendable at `b` since time 0,
+stamped 0.  `b` is polled every 4 s: at time 12 nothing has been sent yet (the timer has not
+fired), the hypotheses of `ack_within_deadline` hold with `p = 4` and the bound `15 + 4` is
+respected; the poll at time 16 emits the stand-alone acknowledgement (`b`'s sequence number 1,
+acknowledging 0). -/
+example :
+    ((runLink (freshLink false false none none) ackSampleOps).get .b).e.s.ackable = true ∧
+    (ackRun .b (AckMon.init (freshLink false false none none) .b) ackSampleOps).polledAt = 12 ∧
+    (ackRun .b (AckMon.init (freshLink false false none none) .b) ackSampleOps).since = some 0 ∧
+    (runLink (freshLink false false none none) ackSampleOps).now = 12 ∧
+    ((runLink (freshLink false false none none) ackSampleOps).get .b).e.s.recv.receivedAt = some 0 ∧
+    (runLink (freshLink false false none none) ackSampleOps).qba = [] ∧
+    (runLink (freshLink false false none none) (ackSampleOps ++ [.tick 4, .poll .b])).qba = [[0x08, 0, 1]] := by
+  decide
 
 /-! ## Intact, exactly once, in order -/
 
